@@ -3,6 +3,7 @@ import Driver.Tcp
 import Driver.MType
 import Driver.Attr
 import Driver.Msg
+import Driver.Xor
 open Driver
 
 def dispatch (l : Line) : Verdict :=
@@ -11,6 +12,7 @@ def dispatch (l : Line) : Verdict :=
   | "mtype" => MTypeFam.handle l
   | "attr" => AttrFam.handle l
   | "msg" => MsgFam.handle l
+  | "xor" => XorFam.handle l
   | f => .bad s!"unknown family {f}" ""
 
 partial def loop (h : IO.FS.Stream) (out : IO.FS.Stream) : IO Unit := do
